@@ -240,6 +240,28 @@ def check_model(ctx, chi, model, rng, label, oracle=None, inp=None, budget=None)
                     tag = 'C09.output_order'
             ctx.spec(tag, err <= TOL and errv <= TOL, dict(inp, given=given),
                      {'chi': r2[1], 'oracle': os_, 'rel_err': err})
+    # ---- re-selection while sensitivities are already enabled (a second enable_sensitivities(True, …)
+    # with another selection, as ReducedMechanisticModel.fix_parameters issues it): the solver must
+    # be asked for exactly the new selection, and simulate must return that many columns
+    if cs[0] == 'ok' and n_p >= 2 and budget.get('restrict', True):
+        k2 = int(rng.integers(1, n_p + 1))
+        given2 = [pub[int(i)] for i in rng.permutation(n_p)[:k2]]
+        if given is not None and sorted(given2) == sorted(given):
+            given2 = [g for g in pub if g not in given][:1] or given2
+        keep2 = [i for i in range(n_p) if pub[i] in given2]
+        want2 = [('init(%s)' % myo[i]) if i < n_s else myo[i] for i in keep2]
+        try:
+            model.enable_sensitivities(True, given2)
+            r3, _, _, _ = sim_record(model, params, times)
+            run_rec = [p for _, c, p in refsim.RECORD if c == 'run']
+            asked = None if not run_rec or run_rec[-1]['sensitivities'] is None else list(run_rec[-1]['sensitivities'][1])
+            shape = None if isinstance(r3, Exception) else np.asarray(r3[1]).shape
+            ctx.spec('C09.sens_order', asked == want2 and shape == (len(times), len(log_names), len(keep2)),
+                     dict(inp, given=given, then_given=given2),
+                     {'solver_asked_for': asked, 'expected': want2, 'shape': shape,
+                      'raised': repr(r3)[:200] if isinstance(r3, Exception) else None})
+        except Exception as e:  # noqa
+            ctx.spec('C09.sens_order', False, dict(inp, given=given, then_given=given2), {'raised': repr(e)[:200]})
     model.enable_sensitivities(False)
     # ---- renamed outputs keep their position (published output order)
     if rng.random() < 0.3 and budget.get('rename', True):
@@ -254,6 +276,8 @@ def check_model(ctx, chi, model, rng, label, oracle=None, inp=None, budget=None)
     # ---- reduced model
     if budget.get('reduced', True) and n_p >= 2:
         red = chi.ReducedMechanisticModel(model)
+        if rng.random() < 0.5:
+            red.enable_sensitivities(True)      # fix_parameters must then refresh the selection
         k = int(rng.integers(1, n_p))
         fidx = sorted(int(i) for i in rng.choice(n_p, size=k, replace=False))
         fvals = {pub[i]: float(rng.uniform(0.3, 1.5)) for i in fidx}
